@@ -265,6 +265,48 @@ func c03BuildJobs() []c03Job {
 		bare = append(bare, parse(ty.null))
 		jobs = append(jobs, job{name: "bare column type=" + ty.name, vals: bare})
 	}
+	// (1b) nulls at two levels: records that are null as a whole at some rows and whose field is
+	// null at others, over more than one 64-row word of the null bitmaps; as top-level values
+	// and as a field
+	recNulls := map[string]func(i, n int) bool{
+		"none":     func(i, n int) bool { return false },
+		"first":    func(i, n int) bool { return i == 0 },
+		"at-70":    func(i, n int) bool { return i == 70 },
+		"last":     func(i, n int) bool { return i == n-1 },
+		"every-50": func(i, n int) bool { return i%50 == 49 },
+	}
+	fieldNulls := map[string]func(i int) bool{
+		"none":    func(i int) bool { return false },
+		"some":    func(i int) bool { return i == 10 || i == 20 || i == 100 || i == 170 },
+		"every-3": func(i int) bool { return i%3 == 1 },
+	}
+	for _, n := range []int{65, 130, 200} {
+		for _, rn := range []string{"none", "first", "at-70", "last", "every-50"} {
+			for _, fn := range []string{"none", "some", "every-3"} {
+				if rn == "none" && fn == "none" {
+					continue
+				}
+				if !rep.Thorough() && n == 130 {
+					continue
+				}
+				var top, nested []zed.Value
+				for i := 0; i < n; i++ {
+					a := fmt.Sprint(1000 + i)
+					if fieldNulls[fn](i) {
+						a = "null(int64)"
+					}
+					r := fmt.Sprintf(`{a:%s,b:"s%d"}`, a, i)
+					if recNulls[rn](i, n) {
+						r = "null({a:int64,b:string})"
+					}
+					top = append(top, parse(r))
+					nested = append(nested, parse(fmt.Sprintf("{r:%s,g:%d}", r, i)))
+				}
+				jobs = append(jobs, job{name: fmt.Sprintf("nested nulls top-level len=%d record-nulls=%s field-nulls=%s", n, rn, fn), vals: top, paths: [][]field.Path{{{"a"}}, {{"b"}}}},
+					job{name: fmt.Sprintf("nested nulls field len=%d record-nulls=%s field-nulls=%s", n, rn, fn), vals: nested, paths: [][]field.Path{{{"r"}}, {{"r", "a"}}, {{"g"}}}})
+			}
+		}
+	}
 	// (2) interleavings of top-level types: all sequences of length <= 4 over 4 shapes
 	shapes := []func(i int) string{
 		func(i int) string { return fmt.Sprintf("{a:%d,b:{c:\"x%d\",d:%d}}", i, i, i*2) },
@@ -481,7 +523,7 @@ func TestC03(t *testing.T) {
 	run.Sample(map[string]any{"objects": len(jobs), "example": jobs[len(jobs)/2].name})
 	run.Sample(map[string]any{"example": jobs[len(jobs)-c03UniverseSize-14].name})
 	run.Set("exhaustive", true)
-	run.Set("rule", "column scripts: field type in 16 types x distinct values in {1,2,255,256,257} x length in {0,1,2,257,600} x null pattern in {none,first,last,middle run,alternating,all} (quick: a stated sub-grid), plus a bare column per type; all interleavings of 4 top-level shapes (one non-record) up to length 4 with 8 projection sets (single, nested, forked, absent paths); every boundary-universe value alone and all together. Each object is read by the row reader and through vcache+vam materialisation and compared with the input (order, structural type, bytes); each projection's paths are compared with the full read, absent = missing. distinct = distinct objects")
+	run.Set("rule", "column scripts: field type in 16 types x distinct values in {1,2,255,256,257} x length in {0,1,2,257,600} x null pattern in {none,first,last,middle run,alternating,all} (quick: a stated sub-grid), plus a bare column per type; two-level null scripts: records null as a whole at {no, first, 70th, last, every 50th} rows x a field null at {no, four, every third} rows x length {65,130,200}, as top-level values and as a field; all interleavings of 4 top-level shapes (one non-record) up to length 4 with 8 projection sets (single, nested, forked, absent paths); every boundary-universe value alone and all together. Each object is read by the row reader and through vcache+vam materialisation and compared with the input (order, structural type, bytes); each projection's paths are compared with the full read, absent = missing. distinct = distinct objects")
 }
 
 func c03Detail(name string, want, got []zed.Value, k int) map[string]any {
